@@ -24,16 +24,17 @@ RULE = ('cases = (ranked chi² vector over {1, 2, 3.5, +inf, NaN} of length 0..5
         'vector is non-empty; distinct = distinct canonical hash of (vector, flags, selectors)')
 REQUIRED_BRANCHES = ['form_A', 'form_N', 'form_C', 'form_D', 'form_E', 'form_F', 'empty', 'tie', 'inf', 'nan',
                      'nan_first', 'inf_first', 'n_gt_total', 'n_fractional', 'keeps_none', 'keeps_all', 'keeps_some',
-                     'cut_between_distinct', 'flags_non_fitted', 'pair_idem', 'pair_looser', 'pair_stricter', 'long']
+                     'cut_between_distinct', 'flags_non_fitted', 'ndata0_E', 'ndata0_F', 'ndata0_empty_flags', 'pair_idem', 'pair_looser', 'pair_stricter', 'long']
 ASSUMPTIONS = ['rounding of (chi2 - chi2[0]) / n_data is not modelled: thresholds are kept at least 1e-6 (relative) away '
                'from every attained criterion value, so the float and the exact comparison cannot differ',
-               'n_data >= 1 in all cases (a source without fitted points is never fitted)',
+               'n_data = 0 (no point flagged 1 or 4) is in the domain: chi2 / 0 follows IEEE (x/0 = +inf for x > 0, 0/0 = nan), '
+               'so E and F keep nothing there; chi² values in the cases are never negative',
                "('N', n) with negative n is outside the property"]
 EXHAUSTIVE = {'quick': False, 'thorough': True}
 FORMS = ['A', 'N', 'C', 'D', 'E', 'F']
 GRID = [q / 4. for q in range(-1, 17)]          # -0.25 .. 4.0
 N_GRID = [0, 1, 2, 2.7, 3, 4, 5, 6, 9]
-FLAG_SETS = [[1], [1, 4], [1, 1, 4], [1, 2, 4, 9, 1, 0, 3]]      # n_data = 1, 2, 3, 3
+FLAG_SETS = [[1], [1, 4], [1, 1, 4], [1, 2, 4, 9, 1, 0, 3], [0, 2, 3, 9], []]      # n_data = 1, 2, 3, 3, 0, 0
 N_QUICK = 3000
 
 
@@ -43,16 +44,25 @@ def n_data_of(flags):
     return sum(1 for f in flags if f in (1, 4))
 
 
+def ieee_div(x, n):
+    """x / n in IEEE arithmetic for an integer n >= 0 (python raises on a zero divisor)"""
+    if n != 0:
+        return x / n
+    if math.isnan(x) or x == 0:
+        return ef.NAN
+    return ef.INF if x > 0 else -ef.INF
+
+
 def crit_value(form, c, c0, nd):
-    """the quantity of the syntax page, in IEEE arithmetic (python floats; nd >= 1)"""
+    """the quantity of the syntax page, in IEEE arithmetic (python floats)"""
     if form == 'C':
         return c
     if form == 'D':
         return c - c0
     if form == 'E':
-        return c / nd
+        return ieee_div(c, nd)
     if form == 'F':
-        return (c - c0) / nd
+        return ieee_div(c - c0, nd)
     raise ValueError(form)
 
 
@@ -60,6 +70,9 @@ def attained(form, chi2, nd):
     """criterion values attained, as exact Fractions where finite (for the grid) and floats otherwise"""
     out = []
     for c in chi2:
+        if nd == 0 and form in ('E', 'F'):
+            out.append(crit_value(form, c, chi2[0], nd))        # +inf or nan: never equal to a finite threshold
+            continue
         if form in ('D', 'F') and not (math.isfinite(c) and math.isfinite(chi2[0])):
             out.append(crit_value(form, c, chi2[0], nd))
             continue
@@ -143,6 +156,12 @@ def directed():
     yield mk_case([1, 2, 2, I, Nn], [1, 4, 9, 0, 3, 1], [('E', 0.75)])
     yield mk_case([1, 2, 2, I, Nn], [1, 4, 9, 0, 3, 1], [('F', 0.25)])
     yield mk_case([I, I, Nn], [1], [('D', 1.)])
+    # no fitted point at all: n_data = 0, chi2 / 0 is +inf (or nan for 0/0) and nothing is below v
+    yield mk_case([1, 2, 2, I, Nn], [0, 2, 3, 9], [('E', 3.25)])
+    yield mk_case([1, 2, 2, I, Nn], [0, 2, 3, 9], [('F', 3.25)])
+    yield mk_case([1, 2, 3.5], [], [('E', 4.)])
+    yield mk_case([1, 1, 2], [9, 9], [('F', 0.25), ('F', 0.25)])
+    yield mk_case([1, 2, 3.5], [2, 3], [('N', 2), ('E', 3.75)])
     yield mk_case([Nn, Nn], [1], [('C', 10.)])
     yield mk_case([2, 2, 2], [1, 1], [('D', -0.25)])
     yield mk_case([2, 2, 2], [1, 1], [('F', 0.25)])
@@ -171,8 +190,10 @@ def long_case(rng, pair):
     vals.sort(key=ef.sort_key)
     nf = rng.randint(1, 7)
     flags = [rng.choice([0, 1, 1, 2, 3, 4, 9]) for _ in range(nf)]
-    if n_data_of(flags) == 0:
+    if n_data_of(flags) == 0 and rng.random() < 0.5:
         flags[rng.randrange(nf)] = rng.choice([1, 4])
+    if rng.random() < 0.08:
+        flags = [f for f in flags if f not in (1, 4)]           # n_data = 0
     sels = [rand_sel(rng, vals, flags) for _ in range(2 if pair else 1)]
     if pair and rng.random() < 0.3:
         sels[1] = sels[0]
@@ -313,6 +334,12 @@ def property_side(case):
         br.add('inf_first')
     if any(f not in (1, 4) for f in flags):
         br.add('flags_non_fitted')
+    if nd == 0 and n:
+        for f_, _ in sels:
+            if f_ in ('E', 'F'):
+                br.add('ndata0_' + f_)
+        if not flags:
+            br.add('ndata0_empty_flags')
     if case.get('tag') == 'long':
         br.add('long')
     for s in sels:
@@ -410,7 +437,7 @@ def search(seed, tier, disagreeing):
 def in_domain(case):
     chi2 = [ef.unjs(x) for x in case['chi2']]
     nd = n_data_of(case['flags'])
-    return ef.is_ranked(chi2) and nd >= 1 and all(avoids(f, None if v is None else ef.unjs(v), chi2, nd)
+    return ef.is_ranked(chi2) and all(avoids(f, None if v is None else ef.unjs(v), chi2, nd)
                                                   for f, v in case['sels'])
 
 
